@@ -337,6 +337,12 @@ def run():
                 if H.out_of_time(0.9):
                     H.note_truncated('JSONL files of %d lines stopped by time budget' % nlines)
                     break
+        # lines that are undecodable for reasons other than a syntax error (json.loads does not raise ValueError for them):
+        # nesting far beyond the recursion limit; with ignore_errors they must be skipped like any other corrupt line
+        deep = b'[' * 30000
+        for lines in ([b'{"k": 1}', deep, b'{"k": 2}'], [deep, b'{"k": 1}'], [b'{"k": 1}', deep]):
+            for mode in ('binary', 'text'):
+                check_jsonl(H, lines, b'\n', True, mode, None, 'jsonl_deep_nesting')
         # multi-block files: sweep the position of the 4096-byte edge across a line boundary and a 2-byte char
         for first in (b'', b'{"k": 0}', b'{"k":'):
             for pad in range(4084, 4096):
